@@ -14,16 +14,35 @@ type firstFail struct {
 	want string
 	f    *pbt.Failure
 	prop string
+	// lenient: an assertion owned by another property does not end the history; fail returns false and the caller adopts
+	// what the code did, so that the wanted property's own assertions still get to judge the rest of the history.
+	lenient bool
+	foreign *pbt.Failure
 }
 
 func (a *firstFail) failed() bool { return a.prop != "" }
 
-func (a *firstFail) fail(prop, key, format string, args ...interface{}) {
+// fail records a failed assertion and reports whether the history must stop.
+func (a *firstFail) fail(prop, key, format string, args ...interface{}) bool {
 	if a.prop != "" {
-		return
+		return true
+	}
+	if a.lenient && prop != a.want && prop != "C05" && prop != "harness" {
+		if a.foreign == nil {
+			a.foreign = pbt.Failf(key, format, args...)
+		}
+		return false
 	}
 	a.prop = prop
 	a.f = pbt.Failf(key, format, args...)
+	return true
+}
+
+// stop ends the history without a verdict (the model cannot follow the code any further).
+func (a *firstFail) stop() {
+	if a.prop == "" {
+		a.prop = "stopped"
+	}
 }
 
 func (a *firstFail) result() *pbt.Failure {
